@@ -266,7 +266,11 @@ def run_session(c, shared_ds=None, reuse_universe=False, reuse_signals=False):
         alpha = (FixedSignalsAlphaModel(dict((k, v) for k, v in a[1]), universe=universe) if cfg.get('alpha_universe')
                  else FixedSignalsAlphaModel(dict((k, v) for k, v in a[1])))
     elif a[0] == 'single':
-        alpha = SingleSignalAlphaModel(universe, signal=a[1])
+        if cfg.get('alpha_universe'):
+            # the documented data_handler option is stored and not used by the model: a handler that lists no asset changes nothing
+            alpha = SingleSignalAlphaModel(universe, signal=a[1], data_handler=BacktestDataHandler(StaticUniverse([]), data_sources=[]))
+        else:
+            alpha = SingleSignalAlphaModel(universe, signal=a[1])
     elif a[0] == 'timed':
         alpha = TimedAlphaModel(a[1])
     elif a[0] == 'topn':
